@@ -914,3 +914,19 @@ Lemma any_active_same_schedules :
   nth_error (snd (runs current_variant wit_cfg (init_sh, wit6a) [O; O; 1%nat; O])) 0 = Some (LProg PIdle [] [0; 0; 0]%N) /\
   nth_error (snd (runs current_variant wit_cfg (init_sh, wit6b) [O; O; 1%nat; O])) 0 = Some (LProg PIdle [] [0; 0; 0]%N).
 Proof. vm_compute. split; reflexivity. Qed.
+
+(* every ClientID = 0 handshake goes through gate 3 (the bucket), whatever its token: after gate 2 it is at PHs3,
+   never directly at the authentication/registration step *)
+Lemma zero_id_passes_gate3 V C ip k s p' s' r :
+  hk_anon k = true -> continue V C (PHs2 ip k) s = (p', s', r) -> p' = PHs3 ip k \/ p' = PIdle.
+Proof.
+  intros Hk H. cbn [continue] in H. rewrite Hk in H. break_lets; pair_inv H; auto.
+Qed.
+Lemma gate3_charges V C ip k s p' s' r :
+  continue V C (PHs3 ip k) s = (p', s', r) ->
+  bk s' ip = Some (fst (take C (now s) 1 (bk s ip))) /\
+  (p' = PHsAuth ip k <-> snd (take C (now s) 1 (bk s ip)) = true).
+Proof.
+  intros H. cbn [continue] in H. destruct (take C (now s) 1 (bk s ip)) as [b ok]. cbn [fst snd].
+  destruct ok; pair_inv H; cbn [bk set_bk]; rewrite upd_same; split; auto; split; intros; congruence.
+Qed.
